@@ -102,6 +102,14 @@ func loadProg(repoDir, specDir string) (*Prog, error) {
 			}
 		}
 	}
+	// clause macros are defined in spec files but used in contract files, which are read first
+	if mspecs, _ := filepath.Glob(filepath.Join(specDir, "*.spec")); true {
+		for _, sf := range mspecs {
+			if err := p.spec.loadMacros(sf); err != nil {
+				return nil, err
+			}
+		}
+	}
 	// dependency functions referenced by assumed contracts are resolved lazily
 	// contract files in the repo
 	for _, pk := range p.pkgs {
